@@ -177,6 +177,12 @@ func (s *Stream) LogRequest(id string, req *http.Request) error {
 		}
 	}
 
+	// A request without a body keeps http.NoBody: wrapped, it would be forwarded as if it had a
+	// body of unknown length (chunked).
+	if req.Body == nil || req.Body == http.NoBody {
+		return nil
+	}
+
 	req.Body = &bodyLogger{
 		s:    s,
 		id:   id,
